@@ -186,8 +186,15 @@ Section Select.
 
   Definition apath (it : item) : path := if i_abs it then i_comps it else cwd ++ i_comps it.
 
+  (* `not os.path.isdir(it)` on a glob result: the string is resolved again *)
+  Definition not_dir (it : item) : bool :=
+    match lookup root (apath it) with Some (Dir _) => false | _ => true end.
+  Definition keep_files (files_only : bool) (l : list item) : list item :=
+    if files_only then filter not_dir l else l.
+
   Definition kids (it : item) (n : node) : list item :=
-    map (fun gm => child_item it (fst gm)) (glob_items glob_dir_last glob_dir_recursive n).
+    keep_files glob_dir_files_only
+      (map (fun gm => child_item it (fst gm)) (glob_items glob_dir_last glob_dir_recursive n)).
 
   (* for item in stack: ... stack += ...   (a list that grows while it is iterated = a FIFO queue).
      The tests are made in the order of Gen.Select.test_order: exists, is_file (suffix), is_dir. *)
@@ -218,7 +225,8 @@ Section Select.
   Definition stack0 (args : list item) : list item :=
     match args with
     | [] => match lookup root cwd with
-            | Some n => map (fun gm => rel_item (fst gm)) (glob_items glob_cwd_last glob_cwd_recursive n)
+            | Some n => keep_files glob_cwd_files_only
+                          (map (fun gm => rel_item (fst gm)) (glob_items glob_cwd_last glob_cwd_recursive n))
             | None => []
             end
     | _ => args
@@ -309,7 +317,7 @@ Fixpoint wfb (n : node) : bool :=
          match l with [] => true | (_, m) :: r => wfb m && all r end) ch
   end.
 
-(* below this directory: no name starts with '.', no directory is named like a source file *)
+(* below this directory: no name starts with '.' *)
 Fixpoint cleanb (n : node) : bool :=
   match n with
   | File => true
@@ -318,7 +326,7 @@ Fixpoint cleanb (n : node) : bool :=
          match l with
          | [] => true
          | (x, m) :: r =>
-             negb (hidden x) && match m with File => true | Dir _ => negb (is_src x) end && cleanb m && all r
+             negb (hidden x) && cleanb m && all r
          end) ch
   end.
 
